@@ -989,8 +989,8 @@ func (c *FnCtx) finishContractOld(p *Path, fc *FuncContract, fn *ssa.Function, r
 			if cl.Seq && c.mode != "seq" {
 				continue
 			}
-			if cl.Acq {
-				continue // a statement about the callee's critical section, not about the caller's pre-state
+			if cl.Acq || cl.Mon {
+				continue // a statement about the callee's critical section / interleavings, not about the caller's pre-state
 			}
 			t, ok := c.evalClause(post, cl, "ensures of "+name)
 			if ok {
